@@ -120,11 +120,14 @@ WalkBroken(r) ==
 \* C14: everything a tagged manifest transitively references remains retrievable.  A tag
 \* vouches for the media type it was pushed with, the registry for the type a manifest is stored
 \* with; what either reading reaches is protected (weakening either one under-protects: the K1
-\* defect was the first, an independently seeded defect the second).  Must and May coincide.
+\* defect was the first, an independently seeded defect the second).
+\* What MAY be refused is a little wider than what MUST be kept: the registry compares digests, so bytes
+\* that are reachable as a blob are also refused deletion as a manifest, and the other way round (the same
+\* bytes can be stored as both).
 MustKeepBlob(r, c) == imm /\ c \in ReachBlobs(r, TRUE)
-MayKeepBlob(r, c) == imm /\ c \in ReachBlobs(r, TRUE)
+MayKeepBlob(r, c) == imm /\ (c \in ReachBlobs(r, TRUE) \/ c \in ReachMans(r, TRUE))
 MustKeepMan(r, c) == imm /\ c \in ReachMans(r, TRUE)
-MayKeepMan(r, c) == imm /\ c \in ReachMans(r, TRUE)
+MayKeepMan(r, c) == imm /\ (c \in ReachMans(r, TRUE) \/ c \in ReachBlobs(r, TRUE))
 
 \* ----------------------------------------------------------------- init --
 Init ==
